@@ -74,6 +74,8 @@ APPLY = {
     'wrap': lambda v: None if v is None else [v],
     'tag': lambda v: None if v is None else ('t', type(v).__name__),
     'pair': lambda v: None if v is None else [v, v],
+    # apply() hands *every* pair's value to the function, unset pairs (None) included: this one gives them a value
+    'fill': lambda v: 'filled' if v is None else v,
 }
 
 
@@ -445,7 +447,7 @@ class World(BaseWorld):
     def assumptions(self):
         return ['symmetric PairTable (constructor default)', 'type names are str or int (tuples are ambiguous under listify)',
                 'ValueTable values are immutable kinds: copy isolation is stated for PairTable only',
-                'apply() functions are None-preserving so that unset pairs stay unset',
+                'apply() functions are None-preserving so that unset pairs stay unset, except "fill", which gives unset pairs a value (apply visits every pair)',
                 'CPython without -O']
 
 
